@@ -552,6 +552,15 @@ func checkC19(t *testing.T, c C19Case) Verdict {
 	}); f != "" && !goroutinesRemain(f) {
 		return bad("C19:bubble", "%s", f)
 	}
+	if c.Batch {
+		// Whether a batch run with a failed item (the probe's item 1 always fails), or a batch node
+		// without a prep function, reports success is not C19's clause: action and success are only
+		// required to agree between the three realisations.
+		want.Action, want.ErrNil = given.Action, given.ErrNil
+		if cfg.prep < 0 {
+			want.PostID = given.PostID
+		}
+	}
 	if m := c19Diff(given, want, "sequence as given"); m != "" {
 		return bad("C19:last-wins", "%s (settings %+v)", m, settings)
 	}
